@@ -1,11 +1,14 @@
 import SaramaVerif.Driver.ProducerTrace
 import SaramaVerif.Driver.FeederTrace
 import SaramaVerif.Driver.GroupTrace
-/- C12 driver: producer traces (reset/ev/bb/end), consumer feeder traces (creset/cf) and group session traces (greset/q/h) -/
+import SaramaVerif.Driver.LifecycleTrace
+/- C12 driver: producer traces (reset/ev/bb/end), consumer feeder traces (creset/cf), group session traces (greset/q/h)
+   and the lifecycle (shutdown handshake) traces of consumer / group / offset manager / client / broker (lreset/lc) -/
 structure All where
   p : Driver.ProducerTrace.DS
   c : Driver.FeederTrace.DS
   g : Driver.GroupTrace.DS
+  l : Driver.LifecycleTrace.DS
 
 def allStep (b : All) (t : List String) : All × String :=
   match t with
@@ -15,10 +18,13 @@ def allStep (b : All) (t : List String) : All × String :=
   | "greset" :: _ | "q" :: _ | "h" :: _ =>
     let r := Driver.GroupTrace.step b.g t
     ({ b with g := r.1 }, r.2)
+  | "lreset" :: _ | "lc" :: _ =>
+    let r := Driver.LifecycleTrace.step b.l t
+    ({ b with l := r.1 }, r.2)
   | _ =>
     let r := Driver.ProducerTrace.step b.p t
     ({ b with p := r.1 }, r.2)
 
 def main : IO Unit := do
   Driver.loop (← IO.getStdin) (← IO.getStdout) allStep
-    { p := { st := Model.Producer.init { retryMax := 0, icepts := 0, idem := false }, failed := false }, c := {}, g := {} }
+    { p := { st := Model.Producer.init { retryMax := 0, icepts := 0, idem := false }, failed := false }, c := {}, g := {}, l := {} }
